@@ -20,20 +20,20 @@ ASSUMPTIONS = ['href/xml:base references are plain relative references without e
                'includes inside an unused xi:fallback whose processing would fail, parse=xml targets that are not well-formed together with a fallback, BOMs in text resources: tagged unspecified, only termination asserted',
                'xpointer is unsupported by design: only "an error is reported" is asserted',
                'watchdog timeouts are inconclusive; non-termination is asserted only through the deterministic fetch bound of the counting resolver or a sanitizer-detected stack overflow']
-BUDGET = {'quick': 1000, 'thorough': 10000}
-WALLCAP = {'quick': 300, 'thorough': 1500}
+BUDGET = {'quick': 600, 'thorough': 6000}
+WALLCAP = {'quick': 400, 'thorough': 2400}
 
 XINC_FATAL = set(range(276, 287))
 CODES_FOR = {'loop': XINC_FATAL, 'bad-parse': {279}, 'xpointer-text': {278}, 'xpointer-unsupported': {278}, 'no-href': {277}, 'multi-fb': {280},
              'bad-child-xi': {284}, 'bad-child-include': {284}, 'orphan-fb': {276}, 'resource-nofb': {281}, 'nonwf-target': {281},
-             'href-fragment': XINC_FATAL, 'empty-href': XINC_FATAL}
+             'href-fragment': XINC_FATAL, 'empty-href': None}      # href="": only 'an error >= E' is certain
 
 # ------------------------------------------------------------------------------------------------
 # genuine defects found on the unchanged tree: excluded by construction, counted, witnesses kept below
 # ------------------------------------------------------------------------------------------------
 DEFECTS = {
-    'C20-D1': 'null fCurrentNode dereference (AbstractDOMParser::docCharacters) when an xi:include that expands to nothing is the first child and is followed by character data',
-    'C20-D2': 'href="" -> heap-buffer-overflow read in XMLPlatformUtils::removeDotDotSlash (XIncludeLocation.cpp allocate())',
+    # C20-D1 (null fCurrentNode after an include that expands to nothing) fixed by 0a1424e, C20-D2 (href="" heap overflow) by 7ce94ad:
+    # exclusions removed, witnesses are regress/C20/*.json
     'C20-D3': 'xi:include as a child of xi:include is not reported (processed eagerly at its own end tag)',
     'C20-D4': 'href with a fragment identifier is not reported as a fatal error; the fragment ends up in xml:base',
     'C20-D5': 'absolute URI in href is appended to the base directory (XIncludeLocation::prependPath ignores absoluteness)',
@@ -249,7 +249,6 @@ def live_includes(files, order):
 def apply_invalid(files, top, inv, excl):
     kind, a, b = inv
     # known-defect classes are replaced by a neighbouring class and counted
-    if kind == 'empty-href': excl['C20-D2'] = excl.get('C20-D2', 0) + 1; kind = 'no-href'
     if kind == 'bad-child-include': excl['C20-D3'] = excl.get('C20-D3', 0) + 1; kind = 'bad-child-xi'
     if kind == 'href-fragment': excl['C20-D4'] = excl.get('C20-D4', 0) + 1; kind = 'bad-parse'
     if kind == 'abs-href': excl['C20-D5'] = excl.get('C20-D5', 0) + 1; return None
@@ -275,6 +274,7 @@ def apply_invalid(files, top, inv, excl):
     elif kind == 'xpointer-text': setattr_('parse', 'text'); setattr_('xpointer', 'element(/1)')
     elif kind == 'xpointer-xml': setattr_('parse', 'xml'); setattr_('xpointer', 'xpointer(/*)')
     elif kind == 'no-href': node[1] = [x for x in attrs if x[0] != 'href']
+    elif kind == 'empty-href': setattr_('href', '')
     elif kind == 'multi-fb':
         node[2] = [c for c in node[2]] + [['fb', [], []]] + ([] if any(c[0] == 'fb' for c in node[2]) else [['fb', [], [['t', 'second']]]])
     elif kind == 'bad-child-xi': node[2].insert(0, ['x', ['foo', 'Include', 'fall-back'][b % 3], []])
@@ -305,33 +305,6 @@ def strip_known(files, top, excl, shape='acyclic'):
         r = f['doc']['root']
         if r[0] == 'e' and xm.battr(r[3]) is not None:
             fix_root_base(files, p, excl)
-    # D1: in the top document (any depth, fallback content included -- it is all parsed by the top-level parser, which processes
-    # includes at their end tag): include with empty expansion, no surviving preceding sibling, character data right after it
-    d = files[top]['doc']
-    turi = xm.uri_of(top)
-    def walk(nodes, base):
-        i = 0
-        while i < len(nodes):
-            nd = nodes[i]
-            if nd[0] == 'e':
-                b = xm.battr(nd[3]); walk(nd[4], xm.resolve(b, base) if b is not None else base)
-            elif nd[0] == 'inc':
-                b = xm.battr(nd[1]); ib = xm.resolve(b, base) if b is not None else base
-                for c in nd[2]:
-                    if c[0] == 'fb': walk(c[2], ib)
-                    elif c[0] == 'e': walk(c[4], ib)
-                if i + 1 < len(nodes) and nodes[i + 1][0] == 't' and all(x[0] == 'inc' for x in nodes[:i]):
-                    sub = xm.Ctx(files, top)
-                    try: items = xm.proc_nodes(sub, nodes[:i + 1], base, [turi])
-                    except xm.TooBig: items = []
-                    if not xm.merge_text(items):
-                        nodes.insert(i + 1, ['c', 'D1']); excl['C20-D1'] = excl.get('C20-D1', 0) + 1
-            elif nd[0] == 'fb': walk(nd[2], base)
-            i += 1
-    if d['root'][0] == 'e':
-        b = xm.battr(d['root'][3]); walk(d['root'][4], xm.resolve(b, turi) if b is not None else turi)
-    else:
-        walk([d['root']], turi)
 
 def fix_root_base(files, p, excl):
     """D6: move an xml:base from the document element of an includable document one level down (wrapping keeps the class explored)"""
@@ -352,7 +325,7 @@ def build_case(files, top, api, res, url):
     # a document must end up with exactly one element child
     if cls == 'valid' and (sum(1 for it in items if it[0] == 'e') != 1 or any(it[0] in ('t', 'cd') for it in items)): cls = 'unspec'; unspec.append('result-not-a-document')
     codes = None
-    if cls == 'error' and len(set(causes)) == 1 and not unspec: codes = sorted(CODES_FOR[causes[0]])
+    if cls == 'error' and len(set(causes)) == 1 and not unspec: codes = sorted(CODES_FOR[causes[0]]) if CODES_FOR[causes[0]] else None
     exp = {'cls': cls, 'causes': causes, 'unspec': unspec, 'codes': codes, 'fetches': ctx.fetches,
            'warn_ok': 'missing-target' in ctx.labels,
            'events': ev if cls == 'valid' else None, 'bases': [b.replace(xm.VROOT, '@', 1) for b in bases] if cls == 'valid' else None}
@@ -565,10 +538,12 @@ XI = 'xmlns:xi="%s"' % xm.XI_NS
 def _w(files, exp, top='a.xml'):
     e = {'cls': 'valid', 'causes': [], 'unspec': [], 'codes': None, 'fetches': 1, 'warn_ok': True, 'events': None, 'bases': None}; e.update(exp)
     return {'files': {k: base64.b64encode(v.encode()).decode() for k, v in files.items()}, 'top': top, 'api': 'dom', 'res': 0, 'url': False, 'expect': e}
-WITNESSES = {
-    'C20-D1': _w({'a.xml': '<a %s><xi:include href="zz.xml"><xi:fallback/></xi:include>text</a>' % XI},
+FIXED_WITNESSES = {      # defects fixed in /repo: stored as regress/C20/<name>.json, must pass
+    'd1_empty_expansion_then_text': _w({'a.xml': '<a %s><xi:include href="zz.xml"><xi:fallback/></xi:include>text</a>' % XI},
                  {'events': [['SE', '{}a'], ['T', 'text'], ['EE', '{}a']], 'bases': ['@/a.xml']}),
-    'C20-D2': _w({'a.xml': '<a %s><xi:include href=""/></a>' % XI}, {'cls': 'error', 'causes': ['empty-href'], 'codes': sorted(XINC_FATAL)}),
+    'd2_empty_href': _w({'a.xml': '<a %s><xi:include href=""/></a>' % XI}, {'cls': 'error', 'causes': ['empty-href'], 'codes': None}),
+}
+WITNESSES = {            # open defects: stored as regress-known/C20/<id>.json
     'C20-D3': _w({'a.xml': '<a %s><xi:include href="b.xml"><xi:include href="b.xml"/></xi:include></a>' % XI, 'b.xml': '<b/>'},
                  {'cls': 'error', 'causes': ['bad-child-include'], 'codes': [284]}),
     'C20-D4': _w({'a.xml': '<a %s><xi:include href="b.xml#x"/></a>' % XI, 'b.xml': '<b/>'}, {'cls': 'error', 'causes': ['href-fragment'], 'codes': sorted(XINC_FATAL)}),
@@ -584,12 +559,34 @@ WITNESSES = {
     'C20-D8': _w({'a.xml': '<a %s><m xml:base="virt/"><xi:include href="../b.xml"/></m></a>' % XI, 'b.xml': '<b/>'},
                  {'events': [['SE', '{}a'], ['SE', '{}m'], ['SE', '{}b'], ['EE', '{}b'], ['EE', '{}m'], ['EE', '{}a']], 'bases': ['@/a.xml', '@/virt/', '@/b.xml']}),
 }
+def classify(case, detail):
+    """a confirmed failure belongs to a known finding only if it is that finding's stored witness (the classes are removed
+    from the generators by construction, so a generated case failing the same way is a new violation)"""
+    return case.get('finding')
+
+def known_witnesses():
+    out = []
+    for fid in sorted(WITNESSES):
+        p = os.path.join(xv.VERIF, 'regress-known', 'C20', fid + '.json')
+        if os.path.exists(p): out.append((fid, json.load(open(p))['case']))
+    return out
+
 def witness_status(ctx, ex):
     out = {}
-    for k in sorted(WITNESSES):
+    for fid, case in known_witnesses():
         try:
-            ok, detail = run_case(WITNESSES[k], ex)
+            ok, detail = run_case(case, ex)
         except Exception as e:
             ok, detail = None, repr(e)
-        out[k] = 'defect still present: ' + DEFECTS[k] if ok is False else ('witness passes now (defect gone?)' if ok else 'inconclusive')
+        out[fid] = 'defect still present: ' + DEFECTS[fid] if ok is False else ('witness passes now (defect gone?)' if ok else 'inconclusive')
     ctx.stats.extra['known_defect_witnesses'] = out
+
+def write_witness_files():
+    """python3-vt -c 'import props.C20 as m; m.write_witness_files()'  (re)creates regress/C20 and regress-known/C20"""
+    for sub, ws in (('regress', FIXED_WITNESSES), ('regress-known', WITNESSES)):
+        d = os.path.join(xv.VERIF, sub, 'C20'); os.makedirs(d, exist_ok=True)
+        for name, case in ws.items():
+            c = dict(case)
+            if sub == 'regress-known': c['finding'] = name; what = DEFECTS[name]
+            else: what = 'fixed defect, must pass'
+            with open(os.path.join(d, name + '.json'), 'w') as f: json.dump({'property': 'C20', 'what': what, 'case': c}, f, indent=1)
